@@ -19,6 +19,8 @@ pub enum Transport {
     Refused,
     ClosedBeforeHead,
     ClosedMidBody,
+    /// every byte of the scripted body arrives, but the server announced more (Content-Length) and closes
+    ClosedAfterBody,
 }
 
 /// What the scripted server/transport does with the next connection opened by a task.
@@ -192,7 +194,7 @@ pub fn open_connection(request: Request) -> usize {
                 record(&mut s, task, Some(id), EvKind::RequestSent);
                 push(&mut s, t + script.latency[1], Step::CloseBeforeHead);
             }
-            Transport::Ok | Transport::ClosedMidBody => {
+            Transport::Ok | Transport::ClosedMidBody | Transport::ClosedAfterBody => {
                 record(&mut s, task, Some(id), EvKind::RequestSent);
                 t += script.latency[1];
                 push(&mut s, t, Step::Head(script.status));
@@ -210,7 +212,8 @@ pub fn open_connection(request: Request) -> usize {
                     }
                 }
                 t += script.latency[2];
-                if script.transport == Transport::ClosedMidBody && !body.is_empty() {
+                // (a 204 reply has no body by definition: whatever length the server announced is ignored, as hyper does)
+                if (script.transport == Transport::ClosedMidBody && !body.is_empty()) || (script.transport == Transport::ClosedAfterBody && script.status != 204) {
                     push(&mut s, t, Step::CloseMidBody);
                 } else {
                     push(&mut s, t, Step::BodyEnd);
